@@ -265,8 +265,13 @@ def run(ctx, w):
     linefeed_rule(ctx, w, S, R, up)
     # W6: DECSTBM validation and "a height change resets the region, a width-only
     # change keeps it" are shared with C05 (rules V5/V6)
-    from rules import c05
+    from rules import c05, c14
     c05.margin_rules(ctx, w, S, R)
+    # rows above / outside the view are never addressed: every index into the line vector is view-relative (C14.D4)
+    T14 = c14.Trim(w, S, R)
+    if T14.ok:
+        c14.view_rules(ctx, w, S, R, T14)
+    shared.stale_operands(ctx, w, S, R, "W11", ["Il", "Dl", "Su", "Sd", "Lf", "Ri"])
 
 
 def c15_strip_clone(t):
